@@ -68,3 +68,24 @@ def run(ck):
         raw = [s for bi in f.reachable() for s in f.stmts(bi) if s.get("rv", {}).get("k") == "bin" and re.match(r"^(Add|Sub|Mul)", s["rv"]["op"])]
         ck.ob("CALLEE", p, "no-raw-arithmetic", not raw, "no unchecked +,-,* on the operands", f.loc())
     ck.floor("CALLEE", "checked_* functions on Amount/Duration/Timestamp", n, 6)
+
+    # textual forms: a receive name is printed as <contract>.<entrypoint>; contract names cannot contain '.', entrypoint
+    # names can, so the parser must cut at the FIRST dot. Duration parsing cuts each token at the first non-digit.
+    FWD = r"str::<impl str>::(splitn|split_once|find|split|split_terminator|split_inclusive)$"
+    REV = r"str::<impl str>::(rsplitn|rsplit_once|rfind|rsplit|rsplit_terminator|rmatches|rmatch_indices)$"
+    for path, sep, what in ((CC + "::types::ReceiveName::<'a>::get_name_parts", 46, "contract/entrypoint separator '.'"),
+                            ("<" + CC + "::types::Duration as std::str::FromStr>::from_str", None, "number/unit boundary")):
+        f = getfn(ck, "rs", CC, path)
+        if not f:
+            continue
+        fw, rv = f.calls(FWD), f.calls(REV)
+        ok = len(fw) >= 1 and not rv
+        if ok and sep is not None:
+            ok = any(any(op_const(a) is not None and op_const(a).get("ty") == "char" and const_int(op_const(a)) == sep for a in t["args"]) for (_, t) in fw)
+            for (_, t) in fw:
+                if t["f"]["name"] == "splitn":
+                    ok = ok and any(op_const(a) is not None and op_const(a).get("ty") == "usize" and const_int(op_const(a)) == 2 for a in t["args"])
+        ck.ob("CALLEE", path, "cuts-at-first-separator", ok,
+              "%s is located from the left (%s)" % (what, [t["f"]["name"] for (_, t) in fw]) if ok else
+              "%s is not located from the left with the expected separator (forward: %s, reverse: %s): names whose later part contains the separator are split wrongly"
+              % (what, [t["f"]["name"] for (_, t) in fw], [t["f"]["name"] for (_, t) in rv]), f.loc())
